@@ -25,6 +25,7 @@ func (r zzvRL) list() corev1.ResourceList {
 		corev1.ResourceMemory: *resource.NewQuantity(r.mem, resource.BinarySI),
 	}
 }
+
 // zzvSym: param "dim" selects which dimension is symbolic (0 cpu, 1 memory, 2 both);
 // the other one is the concrete zero, which halves every merged term.
 func zzvSym(name string, B int64) zzvRL {
